@@ -25,6 +25,9 @@ def gen_matrix(rng, U, kind):
                 v = rng.choice([1e-7, 2e-7, 5e-6])
             elif kind == "allequal":
                 v = 2.5
+            elif kind == "firstdup":
+                # small-scale data (< 1) in which sample 0 has near-duplicates (distance 1e-7)
+                v = 1e-7 if (a == 0 and b <= 3) else rng.uniform(0.01, 0.5)
             elif kind == "distinct":
                 v = None
             else:
@@ -72,7 +75,7 @@ def run(rng, tier, res=None, want=("arcs", "pdf", "cluster")):
             res.violations.append({"property": prop, "what": m, "replay": meta})
 
     fn = lambda a, b: 0.0  # noqa  (never called: pre-computed matrices)
-    kinds = ["lattice", "lattice", "dups", "tiny", "allequal", "distinct", "distinct", "real", "real"]
+    kinds = ["lattice", "lattice", "dups", "tiny", "allequal", "distinct", "distinct", "real", "real", "firstdup"]
     for case in range((480 if "cluster" in want else 320) * scale):
         n = rng.choice([1, 2, 3, 4, 5, 6, 7, 8, 10, 12 if tier == "quick" else 18])
         kind = rng.choice(kinds)
@@ -84,6 +87,20 @@ def run(rng, tier, res=None, want=("arcs", "pdf", "cluster")):
         K = rng.choice([1, 2, 3])
         lab = [rng.randrange(K) for _ in range(n)]
         sg = KNNSubgraph(np.zeros((n, 1)), np.array(lab, dtype=int), I=(np.array(I) if I is not None else None))
+        warm = False
+        if n >= 3 and rng.random() < 0.3:
+            warm = True
+            # an earlier complete cycle on the same subgraph (as the k-selection loops do): arcs, pdf, clustering, destroy
+            k0 = rng.randint(1, n - 1)
+            sg.create_arcs(k0, fn, True, M); sg.calculate_pdf(k0, fn, True, M)
+            o0 = KNNSupervisedOPF(max_k=k0, distance="euclidean") if rng.random() < 0.5 else UnsupervisedOPF(min_k=1, max_k=k0, distance="euclidean")
+            o0.subgraph = sg
+            if isinstance(o0, UnsupervisedOPF):
+                o0._clustering(k0)
+            else:
+                o0._clustering(False)
+            sg.destroy_arcs(); sg.idx_nodes = []
+            res.hit("warmup_cycle")
         w = [[enc(M[idx[p]][idx[q]]) for q in range(n)] for p in range(n)]
         wtok = ints(v for r in w for v in r)
         meta = {"stream": "knn", "n": n, "kind": kind, "I": I, "labels": lab, "M": M.tolist()}
@@ -104,8 +121,8 @@ def run(rng, tier, res=None, want=("arcs", "pdf", "cluster")):
             res.hit("arcs_fresh" if ci == 0 else "arcs_reused"); res.hit("arcs_" + kind)
             if k > n - 1:
                 res.hit("arcs_k_exceeds")
-            if ci == 0:
-                # ---- C12 oracle on a fresh subgraph ----
+            if ci == 0 and not warm:
+                # ---- C12 oracle on a fresh subgraph (a re-used one keeps a running density bound: mirrored, not claimed) ----
                 msgs = []
                 allmax = 0.0
                 rank_max = [0.0] * k
@@ -198,7 +215,7 @@ def run(rng, tier, res=None, want=("arcs", "pdf", "cluster")):
                 # densities squeezed into a band narrower than one unit (what a far outlier does to the rest)
                 base = rng.choice([2.0, 500.0, 999.0])
                 for i in range(n):
-                    sg.nodes[i].density = base + rng.choice([0.0, 0.2, 0.4, 0.6, 0.8, 1.0, 1.3]) if rng.random() < 0.85 else 1.0
+                    sg.nodes[i].density = base + rng.choice([0.0, 0.2, 0.4, 0.6, 0.8, 1.0, 1.3, 1e-9, 2e-7, 0.2 + 1e-8, 0.2 - 3e-7]) if rng.random() < 0.85 else 1.0
                     sg.nodes[i].cost = sg.nodes[i].density - 1
                 res.hit("cluster_narrow_band_density")
             # optional hand-set adjacency: any lists of k distinct other nodes (asymmetric arcs are the rule
